@@ -295,6 +295,49 @@ def enum_base_alias_scenario(ctx, home):
     shutil.rmtree(root, ignore_errors=True)
 
 
+def two_writers_one_process_scenario(ctx, home):
+    """one process writes streams of two different protocols one after the other (C++, binary and NDJSON): each stream must start with its own schema"""
+    pkg = Pkg("TwoW", [Rec("Cal", [("gain", P("float32")), ("name", P("string"))]),
+                       Proto("First", [("a", P("int32")), ("cals", S(N("Cal")))]),
+                       Proto("Second", [("b", P("string")), ("vals", S(P("float64"))), ("c", N("Cal"))]),
+                       Proto("Third", [("only", V(P("uint8")))])])
+    m = mut.Mut(pkg, os.path.join(ctx.workdir, "cases", "twowriters"))
+    try:
+        m.generate()
+        c = m.codec
+        ep = rt.CppEndpoint(m, "plain")
+        datas = {}
+        for proto in pkg.protocols():
+            vals = values.ValueGen(c, rng("C04tw", proto.name), json_safe=True).steps(proto)
+            datas[proto.name] = c.encode_stream(proto, m.schema(proto.name), vals)
+            with open(os.path.join(m.root, proto.name + ".bin"), "wb") as f:
+                f.write(datas[proto.name])
+        for a in pkg.protocols():
+            for b in pkg.protocols():
+                if a.name == b.name:
+                    continue
+                for of in ("bin", "ndjson"):
+                    res = ep.copy(b.name, "bin", of, datas[b.name], first=(a.name, "bin", os.path.join(m.root, a.name + ".bin")))
+                    ctx.ev()
+                    ctx.count("two-writers")
+                    ctx.case(("two-writers", a.name, b.name, of))
+                    if "DRIVER-FIRST: rc=0" not in res.stderr:
+                        raise Inconclusive("first copy in the two-writer scenario failed: %s" % res.stderr[-300:])
+                    if res.rc != 0:
+                        ctx.violation("second-writer-failed:%s" % of, "a %s stream of %s written after a stream of %s in the same process: %s" % (of, b.name, a.name, res.stderr[-300:]), {"model_dir": m.root})
+                        continue
+                    if of == "bin":
+                        _, sch = c.decode_header(res.out)
+                        same = (sch == m.schema(b.name))
+                    else:
+                        first = json.loads(res.out.decode().split("\n")[0])
+                        same = (first.get("yardl", {}).get("schema") == json.loads(m.schema(b.name)))
+                    if not same:
+                        ctx.violation("runtime-header-differs:second-writer:%s" % of, "a %s stream of %s written after a stream of %s in the same process does not start with %s's schema" % (of, b.name, a.name, b.name), {"model_dir": m.root})
+    finally:
+        m.close()
+
+
 def text_scenarios(ctx, home):
     """scenarios written as YAML text (constructs the model emitter does not spell): comments on array dimensions / enum values / union
     cases below a documented field or step, and a protocol whose schema is larger than 16 KiB"""
@@ -524,6 +567,7 @@ def run(ctx):
         ctx.sample(s)
     same_name_scenario(ctx, home)
     enum_base_alias_scenario(ctx, home)
+    two_writers_one_process_scenario(ctx, home)
     text_scenarios(ctx, home)
 
 
